@@ -260,6 +260,11 @@ impl RADAU {
             }));
         }
         h = h.clamp(-hmax, hmax);
+        // The first step must not pass xend either (later steps are landed after each accepted step)
+        let first_step_lands = (x + h - xend) * posneg > 0.0;
+        if first_step_lands {
+            h = xend - x;
+        }
 
         // --- Declarations ---
 
@@ -294,7 +299,7 @@ impl RADAU {
         let mut hold = h;
         let mut hnew: Float;
         let mut hhfac: Float = h;
-        let mut last = false;
+        let mut last = first_step_lands;
         let mut reject = false;
         let mut h_acc: Float = 0.0;
         let mut err_acc: Float = 0.0;
